@@ -255,10 +255,10 @@ def run_case(c, res):
                     # the request's position is the one the application last wrote into it (the service object is shared
                     # by its re-triggers); a write at the very instant of a repetition may or may not be seen
                     hist = pos_hist[m["root"]]
-                    before = [h for h in hist if h[0] <= r["t"] + 1e-9]
-                    allowed = {before[-1][1:]} | {h[1:] for h in hist if abs(h[0] - r["t"]) <= 1e-9}
-                    if len(before) > 1 and abs(before[-1][0] - r["t"]) <= 1e-9:
-                        allowed.add(before[-2][1:])
+                    # every position written at this very instant (writes and the repetition are unordered at equal
+                    # virtual times), and the last one written strictly before it
+                    earlier = [h for h in hist if h[0] < r["t"] - 1e-9]
+                    allowed = {h[1:] for h in hist if abs(h[0] - r["t"]) <= 1e-9} | ({earlier[-1][1:]} if earlier else set())
                     if len(hist) > 1:
                         res.count("denms_of_moving_events_judged")
                 else:
